@@ -3,6 +3,8 @@ enum construction, struct / binascii, AwesomeVersion.  Every model here is part 
 base and is listed in the evidence (MODELS)."""
 import ast
 import binascii
+import functools
+import itertools
 import collections
 import enum
 import struct
@@ -216,7 +218,10 @@ def dict_store(it, d, k, v):
     if kk is MISSING:
         kk = k
     try:
-        dict.__setitem__(d, kk, v)
+        if isinstance(d, collections.OrderedDict):
+            collections.OrderedDict.__setitem__(d, kk, v)  # keeps its own ordering structure
+        else:
+            dict.__setitem__(d, kk, v)
     except TypeError as exc:
         raise prog(exc)
 
@@ -225,6 +230,15 @@ def getitem(it, obj, k):
     if isinstance(obj, dict):
         v = dict_lookup_grouped(it, obj, k)
         if v is MISSING:
+            missing = getattr(type(obj), "__missing__", None)
+            if isinstance(obj, collections.defaultdict):
+                if obj.default_factory is None:
+                    raise prog(KeyError(k))
+                v = it.call(obj.default_factory, [], {})
+                dict_store(it, obj, k, v)
+                return v
+            if missing is not None:
+                return it.call(missing, [obj, k], {})
             raise prog(KeyError(k))
         return v
     if hasattr(obj, "__symex_getitem__"):
@@ -381,6 +395,18 @@ class SByteArray:
     def __symex_iter__(self, it):
         return [mk_int(b) if not isinstance(b, int) else b for b in self.atoms]
 
+    def __symex_getslice__(self, it, lo, hi):
+        n = len(self.atoms)
+        lo, hi = fix_bound(it, lo, n), fix_bound(it, hi, n)
+        return SByteArray(self.atoms[lo:hi])
+
+    def __symex_getitem__(self, it, k):
+        k = pin_index(it, k, len(self.atoms))
+        if not -len(self.atoms) <= k < len(self.atoms):
+            raise prog(IndexError("bytearray index out of range"))
+        b = self.atoms[k]
+        return b if isinstance(b, int) else mk_int(b)
+
     def __len__(self):
         return len(self.atoms)
 
@@ -391,15 +417,64 @@ class SByteArray:
         return f"SByteArray({self.atoms})"
 
 
+def _mk_bytes(cs):
+    cs = list(cs)
+    if all(isinstance(c, int) for c in cs):
+        return bytes(cs)
+    return SBytes(cs)
+
+
 class SMethodOf:
     def __init__(self, recv, name):
         self.recv, self.name = recv, name
+
+
+def _byteseq_method(it, atoms, name, args, wrap):
+    """split / partition / rpartition / find / startswith / endswith of a byte sequence whose
+    atoms may be symbolic, through the string models (a byte is a code point below 256); the
+    separator / needle must be concrete.  Returns MISSING for other methods."""
+    def as_text(x):
+        bs = bytes_atoms(it, x)
+        if not all(isinstance(c, int) for c in bs):
+            raise Unsupported(f"bytes.{name} with a symbolic separator")
+        return "".join(chr(c) for c in bs)
+    s = SStr(list(atoms))
+    if name == "split" and args and args[0] is not None:
+        maxsplit = args[1] if len(args) > 1 else -1
+        return [wrap(x.cs) for x in strs.s_split(it.p, s, as_text(args[0]), maxsplit)]
+    if name in ("partition", "rpartition"):
+        sep = as_text(args[0])
+        if name == "partition":
+            parts = strs.s_split(it.p, s, sep, 1)
+        else:
+            parts = [SStr(tuple(reversed(x.cs))) for x in reversed(strs.s_split(
+                it.p, SStr(tuple(reversed(s.cs))), sep, 1))]
+        sepb = wrap([ord(c) for c in sep])
+        if len(parts) == 2:
+            return (wrap(parts[0].cs), sepb, wrap(parts[1].cs))
+        return (wrap(parts[0].cs), wrap([]), wrap([])) if name == "partition" else \
+            (wrap([]), wrap([]), wrap(parts[0].cs))
+    if name == "find":
+        return strs.s_find(it.p, s, as_text(args[0]), *(args[1:2]))
+    if name in ("startswith", "endswith"):
+        fn = strs.s_startswith if name == "startswith" else strs.s_endswith
+        alts = args[0] if isinstance(args[0], tuple) else (args[0],)
+        res = [fn(it.p, s, as_text(a)) for a in alts]
+        if any(r is True for r in res):
+            return True
+        res = [zbool(mk_bool(r)) for r in res if r is not False]
+        return mk_bool(z3.Or(res)) if res else False
+    return MISSING
 
 
 def bytearray_method(it, recv, name, args, kwargs):
     if name == "extend":
         recv.atoms.extend(bytes_atoms(it, args[0]))
         return None
+    if name != "split" or len(bytes_atoms(it, args[0])) != 1:
+        r = _byteseq_method(it, recv.atoms, name, args, SByteArray)
+        if r is not MISSING:
+            return r
     if name == "split":
         sep = bytes_atoms(it, args[0])
         maxsplit = args[1] if len(args) > 1 else -1
@@ -455,6 +530,8 @@ def binop(it, op, a, b, inplace=False):
         if t is ast.Add:
             return strs.s_concat(a, b)
         raise Unsupported(f"string operator {t.__name__}")
+    if isinstance(a, str) and t is ast.Mod and contains_sym(b, 2):
+        return _percent_template(it, a, b)
     if isinstance(a, (SStr,)) or isinstance(b, (SStr,)):
         if t is ast.Mod:
             return Opaque()
@@ -529,6 +606,13 @@ def binop(it, op, a, b, inplace=False):
                 raise Unsupported("true division by a symbolic / non-positive integer")
             # exact rational; equals the float result while the operands stay below 2**53
             return SReal(z3.ToReal(x) / z3.RealVal(int(b)))
+        if t in (ast.BitAnd, ast.BitOr, ast.BitXor):
+            lim = 2 ** 62
+            if it.p.branch(z3.And(x >= 0, y >= 0, x < lim, y < lim)):
+                bx, by = z3.Int2BV(x, 64), z3.Int2BV(y, 64)
+                r = bx & by if t is ast.BitAnd else bx | by if t is ast.BitOr else bx ^ by
+                return mk_int(z3.BV2Int(r))
+            raise Unsupported(f"integer operator {t.__name__} on a negative / huge symbolic integer")
         raise Unsupported(f"integer operator {t.__name__}")
     return MISSING
 
@@ -672,6 +756,9 @@ def apply_dict(it, schema, data):
 def storing_constructor(cls):
     """Constructors that only store their arguments (safe to run natively on symbolic data)."""
     mod = cls.__module__ or ""
+    if issubclass(cls, tuple) and hasattr(cls, "_fields") and "__new__" in cls.__dict__ and \
+            "__init__" not in cls.__dict__:
+        return True  # collections.namedtuple / typing.NamedTuple: stores its fields
     return mod.startswith("voluptuous") or cls in (collections.deque,)
 
 
@@ -1045,9 +1132,32 @@ def m_dict(it, args, kwargs):
 
 def m_sorted(it, args, kwargs):
     items = m_list(it, args[:1], {})
-    if contains_sym(items, 2):
-        raise Unsupported("sorted() of symbolic data")
-    return it.nat(lambda: sorted(items, **kwargs))
+    if not contains_sym(items, 2):
+        key = kwargs.get("key")
+        if key is None or not hasattr(key, "node"):
+            return it.nat(lambda: sorted(items, **kwargs))
+    key = kwargs.get("key")
+    keys = [it.call(key, [x]) if key is not None else x for x in items]
+    if not all(isinstance(k, (int, SInt, SBool)) and not isinstance(k, bool) or isinstance(k, bool)
+               for k in keys):
+        raise Unsupported("sorted() of symbolic data that is not integers")
+    out = []  # (key, item), ascending, stable
+    for k, x in zip(keys, items):
+        pos = len(out)
+        while pos > 0 and it.truth(mk_bool(zint(k) < zint(out[pos - 1][0]))):
+            pos -= 1
+        out.insert(pos, (k, x))
+    res = [x for _, x in out]
+    if kwargs.get("reverse"):
+        # reverse=True keeps the original order of equal elements
+        res = []
+        for k, x in zip(keys, items):
+            pos = len(res)
+            while pos > 0 and it.truth(mk_bool(zint(k) > zint(res[pos - 1][0]))):
+                pos -= 1
+            res.insert(pos, (k, x))
+        res = [x for _, x in res]
+    return res
 
 
 def m_enumerate(it, args, kwargs):
@@ -1059,7 +1169,15 @@ def m_zip(it, args, kwargs):
     return list(zip(*[m_list(it, [a], {}) for a in args]))
 
 
+def m_iter(it, args, kwargs):
+    if len(args) == 1 and not hasattr(args[0], "__next__") and contains_sym(args[0], 2):
+        return iter(it.iterate(args[0] if not isinstance(args[0], dict) else list(args[0].keys())))
+    return MISSING
+
+
 def m_repr(it, args, kwargs):
+    if isinstance(args[0], (SInt,)) :
+        return m_str(it, args, kwargs)
     if contains_sym(args[0], 3):
         return Opaque()
     return MISSING
@@ -1112,6 +1230,41 @@ def m_print(it, args, kwargs):
     return None
 
 
+def m_bytes(it, args, kwargs):
+    if len(args) == 1 and isinstance(args[0], SByteArray):
+        return _mk_bytes(args[0].atoms)
+    if len(args) == 1 and isinstance(args[0], SBytes):
+        return args[0]
+    if len(args) == 1 and isinstance(args[0], (list, tuple)) and contains_sym(args[0], 2):
+        return _mk_bytes([x.e if isinstance(x, SInt) else x for x in args[0]])
+    return MISSING
+
+
+def m_map(it, args, kwargs):
+    fn, seqs = args[0], [m_list(it, [a], {}) for a in args[1:]]
+    return iter([it.call(fn, list(xs)) for xs in zip(*seqs)])
+
+
+def m_chain(it, args, kwargs):
+    out = []
+    for a in args:
+        out.extend(m_list(it, [a], {}))
+    return iter(out)
+
+
+def m_partial(it, args, kwargs):
+    fn, pargs, pkw = args[0], list(args[1:]), dict(kwargs)
+
+    def bound(*a, **k):
+        kw = dict(pkw)
+        kw.update(k)
+        return it.call(fn, pargs + list(a), kw)
+    bound.__symex_native__ = True
+    bound.__name__ = getattr(fn, "__name__", "partial")
+    bound.func, bound.args, bound.keywords = fn, tuple(pargs), pkw
+    return bound
+
+
 def m_sum(it, args, kwargs):
     items = list(_lazy(it, args[0])) if isinstance(args[0], types.GeneratorType) \
         else it.iterate(args[0])
@@ -1135,7 +1288,8 @@ BUILTINS = {
     type: m_type, getattr: m_getattr, setattr: m_setattr, hasattr: m_hasattr, max: m_max,
     min: m_min, all: m_all, any: m_any, next: m_next, list: m_list, tuple: m_tuple, dict: m_dict,
     sorted: m_sorted, range: m_range, enumerate: m_enumerate, zip: m_zip, repr: m_repr, bytearray: m_bytearray,
-    abs: m_abs, divmod: m_divmod, round: m_round, callable: m_callable, id: m_id, print: m_print, format: m_format, sum: m_sum,
+    abs: m_abs, divmod: m_divmod, round: m_round, callable: m_callable, id: m_id, print: m_print, format: m_format, sum: m_sum, map: m_map, bytes: m_bytes, iter: m_iter,
+    itertools.chain: m_chain, functools.partial: m_partial,
     binascii.unhexlify: m_unhexlify, binascii.hexlify: m_hexlify,
     struct.unpack: m_struct_unpack, struct.pack: m_struct_pack,
 }
@@ -1249,6 +1403,83 @@ def _unsupported(what):
     raise Unsupported(f"{what} on symbolic text")
 
 
+def _assemble(it, parts):
+    if any(isinstance(x, Opaque) for x in parts):
+        return Opaque()
+    if all(isinstance(x, str) for x in parts):
+        return "".join(parts)
+    out = []
+    for x in parts:
+        out.extend(lift_str(x).cs)
+    return SStr(out)
+
+
+def _format_template(it, fmt, args, kwargs):
+    """str.format for templates made of literal text and plain fields {} / {0} / {name}; anything
+    else (specs, conversions, attribute access, a symbolic template) is opaque text."""
+    import string
+    if not isinstance(fmt, str):
+        return Opaque()
+    parts, auto = [], 0
+    try:
+        fields = list(string.Formatter().parse(fmt))
+    except ValueError:
+        return Opaque()
+    for lit, field, spec, conv in fields:
+        if lit:
+            parts.append(lit)
+        if field is None:
+            continue
+        if spec or conv:
+            return Opaque()
+        if field == "":
+            if auto >= len(args):
+                raise prog(IndexError("Replacement index out of range for positional args tuple"))
+            x = args[auto]
+            auto += 1
+        elif field.isdigit():
+            if int(field) >= len(args):
+                raise prog(IndexError("Replacement index out of range for positional args tuple"))
+            x = args[int(field)]
+        elif field.isidentifier():
+            if field not in kwargs:
+                raise prog(KeyError(field))
+            x = kwargs[field]
+        else:
+            return Opaque()
+        parts.append(it.format_value(x, None, None))
+    return _assemble(it, parts)
+
+
+def _percent_template(it, fmt, values):
+    """'...' % values for templates with plain %s / %d / %i / %% only; else opaque text."""
+    import re
+    vals = list(values) if isinstance(values, tuple) else [values]
+    parts, pos, i = [], 0, 0
+    for m in re.finditer(r"%(.)", fmt):
+        parts.append(fmt[pos:m.start()])
+        pos = m.end()
+        c = m.group(1)
+        if c == "%":
+            parts.append("%")
+            continue
+        if c not in "sdi":
+            return Opaque()
+        if i >= len(vals):
+            raise prog(TypeError("not enough arguments for format string"))
+        x = vals[i]
+        i += 1
+        if c in "di" and not isinstance(x, (int, SInt, SBool)):
+            if isinstance(x, (str, SStr)):
+                raise prog(TypeError("%d format: a real number is required, not str"))
+            return Opaque()
+        parts.append(it.format_value(x, None, None))
+    parts.append(fmt[pos:])
+    if i != len(vals):
+        raise prog(TypeError("not all arguments converted during string formatting"))
+    return _assemble(it, parts)
+
+
 def sym_method(it, recv, name, args, kwargs):
     p = it.p
     if isinstance(recv, SBytes):
@@ -1258,6 +1489,9 @@ def sym_method(it, recv, name, args, kwargs):
             return bytes_decode(it, recv, args, kwargs)
         if name == "hex":
             return SStr(m_hexlify(it, [recv], {}).bs)
+        r = _byteseq_method(it, bytes_atoms(it, recv), name, args, lambda cs: _mk_bytes(cs))
+        if r is not MISSING:
+            return r
         raise Unsupported(f"bytes.{name} on symbolic bytes")
     s = lift_str(recv)
     if name == "rstrip":
@@ -1277,10 +1511,21 @@ def sym_method(it, recv, name, args, kwargs):
         return strs.s_join(p, s, items)
     if name == "find":
         return strs.s_find(p, s, args[0], *(args[1:2]))
-    if name == "startswith":
-        return mk_bool(strs.s_startswith(p, s, args[0]))
-    if name == "endswith":
-        return mk_bool(strs.s_endswith(p, s, args[0]))
+    if name in ("startswith", "endswith"):
+        fn = strs.s_startswith if name == "startswith" else strs.s_endswith
+        if isinstance(args[0], tuple):
+            alts = [fn(p, s, a) for a in args[0]]
+            if any(a is True for a in alts):
+                return True
+            alts = [zbool(mk_bool(a)) for a in alts if a is not False]
+            return mk_bool(z3.Or(alts)) if alts else False
+        return mk_bool(fn(p, s, args[0]))
+    if name == "count" and len(args) == 1 and isinstance(args[0], str) and len(args[0]) == 1:
+        t = strs.expand(p, s)
+        ch = ord(args[0])
+        terms = [z3.If(c == ch, 1, 0) for c in t.cs if not isinstance(c, int)]
+        base = sum(1 for c in t.cs if isinstance(c, int) and c == ch)
+        return mk_int(z3.Sum(terms) + base) if terms else base
     if name == "isdigit":
         return strs.s_isdigit(p, s)
     if name == "encode":
@@ -1309,7 +1554,7 @@ def sym_method(it, recv, name, args, kwargs):
     if name == "zfill":
         return _unsupported("str.zfill")
     if name == "format":
-        return Opaque()
+        return _format_template(it, recv, args, kwargs)
     if name in ("index", "count", "splitlines", "isalpha", "title"):
         raise Unsupported(f"str.{name} on symbolic text")
     raise prog(AttributeError(f"'str' object has no attribute '{name}'"))
